@@ -160,3 +160,9 @@ func Panics(a uint64) uint64 {
 	}
 	return 100 / (a % 4)
 }
+
+func Words(input []byte, extra []byte) uint64 {
+	return uint64(len(input)+31)/32*12 + 60 + wordsOf(extra)
+}
+
+func wordsOf(b []byte) uint64 { return uint64(len(b)) / 192 }
